@@ -9,7 +9,7 @@ FIX_COMMITS = []
 T = {
     "C01": ("exploration", "differential against own MapSpec denotation over generated pipelines (symbolic probes + call log)",
             "Held on the generated executions: every output of every generated MapSpec pipeline, under each registered storage, compared element-by-element (as call-tree terms) with an independent denotational evaluator, plus exactly-once call accounting from the probe log.",
-            "Bounded by the generator (<=4 functions, rank<=3, sizes 1..3); sequential execution only (parallel schedules are C03); oracle = vlib.mapgen.oracle.", "4/C01"),
+            "Bounded by the generator (<=4 functions, rank<=3, sizes 1..3); sequential execution plus the default process pool for two storage configurations (other parallel schedules are C03); oracle = vlib.mapgen.oracle.", "4/C01"),
     "C02": ("exploration", "differential against a reference DAG evaluator over generated call-DAGs (symbolic probes, call log, all call forms, listing orders, arg_combinations cuts)",
             "Held on the generated executions: value, call multiset, call order and full_output memo of pipeline(...)/run/func for every output and several keyword sets compared with an independent evaluator of the DAG description; listed argument combinations exercised; surplus/missing keywords must be rejected.",
             "Bounded by the generator (<=6 functions, <=3 roots); 'surplus keyword' is demanded to be rejected only when it names no parameter of any executed function (a keyword shadowed by a bound value carries no expectation).", "4/C02"),
